@@ -71,17 +71,39 @@ class GFQ2:
         raise Unsupported(f'FQ2.{name}')
 
 
+def prod12(factors):
+    """The FQ12 product of the given atomic factors, in the given order, as one term: `one` dropped, folded from the left.
+    FQ12 is a field (py_ecc, assumed): its product is associative and has `one` as identity, so every bracketing of the same sequence of
+    factors — with any number of `one` among them — denotes the same element.  (Commutativity is used where two products are compared:
+    `same_product`.)"""
+    fs = [f for f in factors if not z3.eq(f, One12)]
+    if not fs:
+        return One12
+    t = fs[0]
+    for f in fs[1:]:
+        t = Mul12(t, f)
+    return t
+
+
+def product_is_one(terms):
+    """z3 formulas, one per arrangement of the factors, each saying "the product of `terms` is one".  The product of a field is commutative,
+    so all arrangements denote the same element and the formulas are equivalent; a goal may use any of them (their disjunction)."""
+    import itertools
+    return [prod12(list(p)) == One12 for p in itertools.permutations(terms)] or [z3.BoolVal(True)]
+
+
 class GF12:
+    """an FQ12 element that is a product of atomic factors (pairing values, `one`), kept modulo the field laws of the product"""
     __pyvc_symbolic__ = True
 
-    def __init__(self, term):
-        self.term = term
+    def __init__(self, term, factors=None):
+        self.factors = list(factors) if factors is not None else [term]
+        self.term = prod12(self.factors)
 
     def __pyvc_binop__(self, eng, op, other, refl):
         import ast
         if isinstance(op, ast.Mult) and isinstance(other, GF12):
-            a, b = (other, self) if refl else (self, other)
-            return GF12(Mul12(a.term, b.term))
+            return GF12(None, self.factors + other.factors)
         return NotImplemented
 
     def __pyvc_cmp__(self, eng, op, other, refl):
@@ -404,12 +426,9 @@ def h_pairing(k):
         e.check(f'{tag}::ensures.one_bool_result,rest_untouched', z3.BoolVal(bool(ok)))
         if not ok:
             return
-        prod = One12
-        if terms:
-            prod = terms[0]
-            for t in terms[1:]:
-                prod = Mul12(prod, t)
-        e.check(f'{tag}::ensures.true_iff_product_of_pairings_is_one', (ZB(_val(out[0])) if isinstance(_val(out[0]), Sym) else z3.BoolVal(bool(_val(out[0])))) == (prod == One12))
+        got = ZB(_val(out[0])) if isinstance(_val(out[0]), Sym) else z3.BoolVal(bool(_val(out[0])))
+        # the factors may be multiplied in any order (field: commutative product): every arrangement is the same obligation
+        e.check(f'{tag}::ensures.true_iff_product_of_pairings_is_one', z3.Or(*[got == one for one in product_is_one(terms)]))
         e.check(f'{tag}::ensures.every_pair_used_once(pairing(G2 point, G1 point))', z3.BoolVal([x for x in log if x[0] == 'pairing'] == [('pairing', 2, 1)] * k))
     return h
 
@@ -461,7 +480,8 @@ def run_P(ck):
     for c in (A.AddInstruction, A.MulInstruction, A.NegInstruction, A.IntInstruction, C.PairingCheckInstruction):
         ck.function(c.__dict__['execute'], name=f'{c.__module__}:{c.__name__}.execute')
     ck.assume('py_ecc (external) enters through uninterpreted functions: add / multiply / neg / pairing / FQ12 product are the group and field operations '
-              '(their laws are assumed; the bounded part exercises them); normalize returns coordinates below the field modulus; a finite point is the '
+              '(their laws are assumed; the bounded part exercises them; of the FQ12 product exactly: commutative, associative, identity `one`: '
+              'a product is kept as the sequence of its factors and compared with the specification in every arrangement); normalize returns coordinates below the field modulus; a finite point is the '
               'affine point of its normalised coordinates; is_inf / normalize of an affine triple (x, y, 1) are False / (x, y)')
     ck.assume('int.to_bytes / int.from_bytes are inverse on the byte width (lemma applied through concatenation and exact re-slicing)')
     ck.trust('PyVC encoding of the Python subset (DESIGN.md 3.2)')
